@@ -707,10 +707,25 @@ def report_round3(ctx, c, r):
 
 
 # ---------------------------------------------------------------- round 3b: ill-conditioned zero clauses
-ILL_ESTS = ["ls", "ls_icpt", "default", "r2f_cut12", "r2f_tik30", "r2f_grid"]
+def _perm_grid(rng, alphas):
+    """the same grid in another ORDER: Ridge2FoldCV documents no ordering requirement for alphas"""
+    a = [float(x) for x in alphas]
+    mode = rng.choice(["increasing", "decreasing", "shuffled", "repeated"])
+    if mode == "decreasing":
+        a = a[::-1]
+    elif mode == "shuffled":
+        a = rng.sample(a, len(a))
+    elif mode == "repeated":
+        a = rng.sample(a, len(a))
+        for _ in range(rng.randint(1, 3)):
+            a.insert(rng.randrange(len(a) + 1), rng.choice(a))
+    return a, mode
 
 
-def make_ill_estimator(name):
+ILL_ESTS = ["ls", "ls_icpt", "default", "r2f_cut12", "r2f_tik30", "r2f_grid", "r2f_perm", "r2f_perm"]
+
+
+def make_ill_estimator(name, alphas=None):
     from sklearn.linear_model import LinearRegression
     from skmatter.linear_model import Ridge2FoldCV
     if name == "ls":
@@ -721,8 +736,9 @@ def make_ill_estimator(name):
         return Ridge2FoldCV(alphas=np.array([1e-12]), alpha_type="relative", regularization_method="cutoff")
     if name == "r2f_tik30":
         return Ridge2FoldCV(alphas=np.array([1e-30]))
-    if name == "r2f_grid":
-        return Ridge2FoldCV(alphas=np.geomspace(1e-9, 0.9, 20), alpha_type="relative",
+    if name in ("r2f_grid", "r2f_perm"):
+        return Ridge2FoldCV(alphas=np.geomspace(1e-9, 0.9, 20) if alphas is None else np.array(alphas, dtype=float),
+                            alpha_type="relative",
                             regularization_method="cutoff", random_state=SEED0, shuffle=True,
                             scoring="neg_root_mean_squared_error", n_jobs=1)
     return None
@@ -735,7 +751,7 @@ def gen_ill_case(rng):
     est = rng.choice(ILL_ESTS)
     # estimators that SELECT a cut-off by cross-validation on half of the rows: keep the folds
     # clearly above the smallest relative cut-off 1e-9 of the default grid
-    selects = est in ("default", "r2f_grid")
+    selects = est in ("default", "r2f_grid", "r2f_perm")
     cond = 10.0 ** rng.uniform(3, 6 if selects else 8)
     if rng.random() < 0.5:
         scales = np.geomspace(1.0, 1.0 / cond, p)
@@ -764,7 +780,9 @@ def gen_ill_case(rng):
         tr, te = idx[:ntr], idx[ntr // 2:]
     elif mode == "both":
         tr, te = idx[:ntr], idx[ntr:]
-    return dict(kind="illcond", sub=kind, X=X.tolist(), Y=Y.tolist(), A=A.tolist(), est=est, mode=mode,
+    alphas, order = (None, None) if est != "r2f_perm" else _perm_grid(rng, np.geomspace(1e-9, 0.9, rng.randint(3, 20)))
+    return dict(kind="illcond", sub=kind, X=X.tolist(), Y=Y.tolist(), A=A.tolist(), est=est, mode=mode, alphas=alphas,
+                grid_order=order,
                 train_idx=tr, test_idx=te, measure="grd" if kind == "grd" else "gre", target_cond=cond)
 
 
@@ -788,14 +806,16 @@ def ill_bound(c):
     gate = None
     if len(tr) < 2 * X.shape[1] + 2 or not cond < 1e9:
         gate = "too few training rows / cond beyond 1e9"
-    elif c["est"] in ("default", "r2f_grid"):
-        # the cross-validated cut-off must keep every direction (else the estimator regularises,
-        # and GRE(X, XA) > 0 is intended): its weights on the standardised block vs least squares
-        est = make_ill_estimator("r2f_grid")
-        est.fit(Xc / sX, Yc / sY)
-        Wls = np.linalg.lstsq(Xc / sX, Yc / sY, rcond=None)[0]
-        if np.linalg.norm(est.coef_.T - Wls) > 1e-2 * np.linalg.norm(Wls):
+    elif c["est"] in ("default", "r2f_grid", "r2f_perm"):
+        # the cross-validated cut-off must keep every direction (else the estimator regularises, and
+        # GRE(X, XA) > 0 is intended).  Decided by the independent numpy reference of the 2-fold selection
+        # (the grid indexed AS GIVEN), not by the library
+        par = dict(DEFAULT_R2F) if not c.get("alphas") else dict(DEFAULT_R2F, alphas=c["alphas"])
+        ref = ref_2fold_selection(Xc / sX, Yc / sY, par)
+        if not (ref["kept"] == ref["rank"] == X.shape[1]):
             gate = "cross-validation selected an active cut-off"
+        elif not (ref["gap"] > 1e-7 and ref["margin"] > 1e-6 and ref["exact_ties"]):
+            gate = "near-tie in the cross-validated selection"
     return tol, dict(cond=cond, normB=nB, n_train=len(tr)), gate
 
 
@@ -807,8 +827,8 @@ def run_ill_case(c):
     name = "reconstruction_distortion" if c["measure"] == "grd" else "reconstruction_error"
     try:
         with np.errstate(all="ignore"):
-            pw = getattr(M, "pointwise_global_" + name)(X, Y, estimator=make_ill_estimator(c["est"]), **kw)
-            g = getattr(M, "global_" + name)(X, Y, estimator=make_ill_estimator(c["est"]), **kw)
+            pw = getattr(M, "pointwise_global_" + name)(X, Y, estimator=make_ill_estimator(c["est"], c.get("alphas")), **kw)
+            g = getattr(M, "global_" + name)(X, Y, estimator=make_ill_estimator(c["est"], c.get("alphas")), **kw)
         return dict(pw=[float(x) for x in np.ravel(pw)], g=float(g))
     except Exception as e:  # noqa
         return dict(error="%s: %s" % (type(e).__name__, str(e)[:200]))
@@ -838,6 +858,12 @@ R2F_SCORINGS = ["neg_root_mean_squared_error", "neg_mean_squared_error", None, "
 
 
 def _r2f_grid(rng):
+    g = _r2f_grid_inc(rng)
+    g["alphas"] = _perm_grid(rng, g["alphas"])[0]
+    return g
+
+
+def _r2f_grid_inc(rng):
     if rng.random() < 0.5:
         return dict(alpha_type="absolute", alphas=[float(x) for x in np.geomspace(10.0 ** rng.uniform(-8, -4), 10.0 ** rng.uniform(0, 3), rng.randint(4, 10))])
     return dict(alpha_type="relative", alphas=[float(x) for x in np.geomspace(10.0 ** rng.uniform(-9, -5), 0.9, rng.randint(4, 10))])
@@ -1013,6 +1039,7 @@ def gen_selrot_case(rng):
     else:
         grid = dict(alpha_type="relative", regularization_method="tikhonov",
                     alphas=[float(a) for a in np.geomspace(1e-6, 0.9, m)])
+    grid["alphas"] = _perm_grid(rng, grid["alphas"])[0]
     params = None if scoring == "default_estimator" else dict(
         grid, scoring=scoring, random_state=rng.randint(0, 99), shuffle=True)
     rot_ok = scoring in (None, "neg_mean_squared_error")      # mean squared error: invariant under every orthogonal R
@@ -1191,6 +1218,8 @@ def gen_wide_case(rng):
         params = dict(alphas=[float(a) for a in np.geomspace(1e-6, 0.9, m)], alpha_type="relative",
                       regularization_method="cutoff", random_state=rng.randint(0, 99), shuffle=True,
                       scoring="neg_mean_squared_error")
+    if params is not None:
+        params["alphas"] = _perm_grid(rng, params["alphas"])[0]
     idx = list(range(n))
     rng.shuffle(idx)
     return dict(kind="wide", regime=regime, ykind=ykind, X=X.tolist(), Y=Y.tolist(), A=A.tolist(), Q=_orth(rng, p).tolist(),
@@ -1255,6 +1284,67 @@ def run_wide(c):
             return ("Ridge2FoldCV selected alpha = %.6g, the 2-fold %s of the grid is best at alpha = %.6g "
                     "(relative score gap %.3g) [%s]" % (e0.alpha_, par["scoring"], ref["alpha"], ref["gap"], tag)), st
     return None, st
+
+
+
+# ---------------------------------------------------------------- round 6: large test sets for LRE
+def gen_bigtest_case(rng, n_test):
+    G = lambda r, c: np.array([[rng.gauss(0, 1) for _ in range(c)] for _ in range(r)])  # noqa: E731
+    ntr, p, q = rng.randint(16, 36), rng.randint(1, 3), rng.randint(1, 3)
+    n = ntr + n_test
+    X = G(n, p) * np.geomspace(1, rng.uniform(0.3, 1), p)
+    Y = np.tanh(X @ G(p, q)) + 0.3 * G(n, q)
+    idx = list(range(n))
+    rng.shuffle(idx)
+    alpha = 0.0 if rng.random() < 0.3 else 10.0 ** rng.uniform(-3, 0)
+    k = ntr if rng.random() < 0.4 else rng.randint(p + 4, ntr)
+    return dict(kind="bigtest", X=X.tolist(), Y=Y.tolist(), train_idx=idx[:ntr], test_idx=idx[ntr:], alpha=alpha, k=k,
+                measure="lre", default_split=False)
+
+
+def run_bigtest(c):
+    """pointwise LRE on a test set of several hundred points against an independent numpy statement (k nearest
+    training rows by the expanded squared distance, local centring, ridge / least squares, prediction) and, for
+    k = n_train, against the pointwise GRE.  Returns (message or None, number of points compared)."""
+    from sklearn.linear_model import LinearRegression, Ridge
+    X, Y = np.array(c["X"]), np.array(c["Y"])
+    tr, te, k, a = c["train_idx"], c["test_idx"], c["k"], c["alpha"]
+    mk = (lambda: LinearRegression(fit_intercept=False)) if a == 0 else (lambda: Ridge(alpha=a, fit_intercept=False))
+    try:
+        v = _hist_call(c, mk(), None)
+        g = _hist_call(dict(c, measure="gre"), mk(), None) if k >= len(tr) else None
+    except Exception as e:  # noqa
+        return "LRE on %d test points raised %s: %s" % (len(te), type(e).__name__, str(e)[:160]), 0
+    if v.shape != (len(te),):
+        return "pointwise LRE has shape %s for %d test points" % (v.shape, len(te)), 0
+    Xs_tr, Xs_te = standardise(X[tr], X[tr]), standardise(X[tr], X[te])
+    Ys_tr, Ys_te = standardise(Y[tr], Y[tr]), standardise(Y[tr], Y[te])
+    D = (Xs_tr ** 2).sum(axis=1) + (Xs_te ** 2).sum(axis=1)[:, None] - 2 * Xs_te @ Xs_tr.T
+    p = X.shape[1]
+    ncmp = 0
+    for i in range(len(te)):
+        order = np.argsort(D[i], kind="stable")
+        if k < len(tr) and D[i][order[k]] - D[i][order[k - 1]] < 1e-8:
+            continue                                   # near-tie in the neighbour order
+        nb = order[:k]
+        mx, my = Xs_tr[nb].mean(axis=0), Ys_tr[nb].mean(axis=0)
+        lx, ly = Xs_tr[nb] - mx, Ys_tr[nb] - my
+        sv = np.linalg.svd(lx, compute_uv=False)
+        cond = math.sqrt((sv[0] ** 2 + a) / (sv[-1] ** 2 + a)) if sv[-1] ** 2 + a > 0 else float("inf")
+        if not cond < 1e5:
+            continue
+        W = np.linalg.solve(lx.T @ lx + a * np.eye(p), lx.T @ ly)
+        ref = float(np.linalg.norm(Ys_te[i] - (my + (Xs_te[i] - mx) @ W)))
+        _, rtol, atol = tolerances(cond)
+        ncmp += 1
+        if abs(v[i] - ref) > 10 * atol + 10 * rtol * max(abs(ref), abs(v[i])):
+            return ("pointwise LRE of test point %d of %d (n_train = %d, n_local_points = %d, %s) is %.9g, the k nearest "
+                    "training rows with a local fit give %.9g" % (i, len(te), len(tr), k, "least squares" if a == 0 else
+                                                                  "ridge alpha = %.3g" % a, v[i], ref)), ncmp
+        if g is not None and abs(v[i] - g[i]) > 10 * atol + 10 * rtol * max(abs(g[i]), abs(v[i])):
+            return ("LRE with all %d training points as neighbours differs from the pointwise GRE at test point %d of %d: "
+                    "%.9g vs %.9g" % (len(tr), i, len(te), v[i], g[i])), ncmp
+    return None, ncmp
 
 
 
@@ -1326,7 +1416,19 @@ def run_round3b(ctx, stats):
                 is_alpha = msg.startswith("Ridge2FoldCV selected alpha")
                 C.report_violation(ctx, ("C13 (estimator contract): " if is_alpha else "C13 fails on the implementation: ") + msg,
                                    dict(case=c), found_input=not is_alpha)
-    return n_ill + n_hist + n_sel + n_wide
+    sizes = [257, 300, 520, 700] if ctx.quick else [257, 258, 300, 511, 513, 520, 700, 769, 1030] * 2
+    bs = stats["round6_bigtest"] = dict(cases=0, points_compared=0, k_all=0, failures=0)
+    for nt in sizes:
+        c = gen_bigtest_case(ctx.rng, nt)
+        msg, ncmp = run_bigtest(c)
+        bs["cases"] += 1
+        bs["points_compared"] += ncmp
+        bs["k_all"] += c["k"] >= len(c["train_idx"])
+        if msg:
+            bs["failures"] += 1
+            if bs["failures"] <= 3:
+                C.report_violation(ctx, "C13 fails on the implementation: " + msg, dict(case=c), found_input=True)
+    return n_ill + n_hist + n_sel + n_wide + len(sizes)
 
 
 
@@ -1488,6 +1590,10 @@ def replay(ctx, obj):
         print("replay:", "input check still differs: expected %s observed %s" % (exp, r) if bad
               else "input check agrees with its model on this input now")
         return 1 if bad else 0
+    if c.get("kind") == "bigtest":
+        msg, _ = run_bigtest(c)
+        print("replay:", msg or "large-test-set LRE agrees with the kNN reference on this input now")
+        return 1 if msg else 0
     if c.get("kind") == "wide":
         msg, _ = run_wide(c)
         print("replay:", msg or "wide-source clauses hold on this input now")
